@@ -31,7 +31,7 @@ ALLOWED_PLAIN_BINDERS = {
     "expr": "closure pattern in the discriminant initialiser; generated text only",
     "_": "wildcard",
 }
-USER_CALLABLE_TYPES = ("alloc::borrow::Cow<'_, syn::expr::Expr>", "darling_core::util::callable::Callable", "alloc::borrow::Cow<'_, darling_core::util::callable::Callable>")
+USER_CALLABLE_TYPES = ("syn::expr::Expr", "darling_core::util::callable::Callable")
 
 
 SAFE_INTERP = re.compile(r"^(darling_core::options::shape::DataShape|alloc::string::String|str|syn::ty::Type|proc_macro2::Literal|bool|usize|darling_core::util::shape::Shape)$")
